@@ -1,20 +1,25 @@
 #!/bin/bash
 # usage: tools/twins.sh [seed-dir ...] -- every seeded change of round 7 comes with a twin: the same refactoring, feature or
 # optimisation done right (twin.diff; the seed's demonstration passes with it, and so does the suite).  Each twin is
-# applied to a scratch copy of /repo and EVERY check must stay silent.  A report here is a false alarm.
+# applied to a scratch copy of /repo and EVERY check must stay silent.  A report here is a false alarm (or, where DESIGN
+# says so, a limit of a rule that is named there).  Twins run in parallel (TWINS_JOBS, default 6).
 cd "$(dirname "$0")/.."
 export GOFLAGS=-mod=mod GOPROXY=off GOSUMDB=off GOTOOLCHAIN=local; unset GOWORK
-SCR=$(mktemp -d /tmp/twn.XXXXXX); RC=0
-for S in ${@:-seeded/*}; do
-  [ -f $S/twin.diff ] || continue
-  rm -rf $SCR/repo $SCR/verif; mkdir -p $SCR/verif; rsync -a --exclude .git /repo/ $SCR/repo/; cp known_findings.txt $SCR/verif/
-  (cd $SCR/repo && patch -p1 --quiet < "$OLDPWD/$S/twin.diff" >/dev/null 2>&1) || { echo "$(basename $S) TWIN-PATCH-FAILED"; continue; }
-  (cd $SCR/repo && go build ./... >/dev/null 2>&1) || { echo "$(basename $S) TWIN-BUILD-FAILED"; continue; }
+one() {
+  S=$1; SCR=$(mktemp -d /tmp/twn.XXXXXX)
+  mkdir -p $SCR/verif; rsync -a --exclude .git /repo/ $SCR/repo/; cp known_findings.txt $SCR/verif/
+  if ! (cd $SCR/repo && patch -p1 --quiet < "$OLDPWD/$S/twin.diff" >/dev/null 2>&1); then echo "$(basename $S) TWIN-PATCH-FAILED"; rm -rf $SCR; return; fi
+  if ! (cd $SCR/repo && go build ./... >/dev/null 2>&1); then echo "$(basename $S) TWIN-BUILD-FAILED"; rm -rf $SCR; return; fi
   LINE="$(basename $S) twin"
   for P in $(./bin/rulint -list); do
     R=$(VERIF_DIR=$SCR/verif ./bin/rulint -property $P -repo $SCR/repo 2>&1); C=$?
-    if [ $C != 0 ]; then LINE="$LINE $P:exit$C[$(echo "$R" | grep -E '^(finding:|UNDECIDED)' | head -1 | cut -c1-200)]"; RC=1; fi
+    if [ $C != 0 ]; then LINE="$LINE $P:exit$C[$(echo "$R" | grep -E '^(finding:|UNDECIDED)' | head -1 | cut -c1-200)]"; fi
   done
-  echo "$LINE"
-done
-rm -rf $SCR; exit $RC
+  echo "$LINE"; rm -rf $SCR
+}
+export -f one
+LIST=""; for S in ${@:-seeded/*}; do [ -f $S/twin.diff ] && LIST="$LIST $S"; done
+OUT=$(echo $LIST | tr ' ' '\n' | xargs -P ${TWINS_JOBS:-6} -I{} bash -c 'one {}' | sort)
+echo "$OUT"
+echo "$OUT" | grep -q ':exit' && exit 1
+exit 0
